@@ -247,6 +247,11 @@ func runExhaustive(p *Program, r *RuleResult) {
 					}
 				}
 			}
+			if silent && !failing && isNamed(E, parserPkg, "Kind") {
+				// statement kinds: a pass over the statements may leave some kinds to another
+				// pass; that every kind is handled by some pass is R-KIND-EXH's obligation
+				continue
+			}
 			if silent && !failing && isPureTextFn(p, fn) {
 				// a function that only computes a text: printing nothing for the remaining
 				// members is a choice of the printer, not a dropped step
